@@ -113,13 +113,18 @@ Inputs == {TokenTextAt(Tok20, i, "top") : i \in 1..NumInputs}
 (*           what else the declared name is; every inner-only statement    *)
 (*           kind at the top level of the main and of an imported file     *)
 (*  cyc      import cycles (self, 2, 3) in which some or EVERY file has a  *)
-(*           syntax error                                                  *)
+(*           syntax error; cycles of from-imports of a name nobody defines *)
 (*  selfty   self-referential inferred types appearing in a type error or  *)
 (*           meeting an operator that walks the type                       *)
 (*  text     strings, comments and error tokens that span 1-4 lines and    *)
 (*           hold non-ASCII characters before / after / on their last line *)
 (*  entry    where `start` comes from: defined, imported, renamed, only in *)
 (*           another file, in both, of a wrong type; 1-3 files, cycles     *)
+(*  lit      arithmetic over literals whose value reaches and crosses the  *)
+(*           numeric limits (+-2^63, the largest double), at every place   *)
+(*           an expression can stand                                       *)
+(*  hist     HISTORIES: two or three compilations in one thread; a case is *)
+(*           [id, steps = <<program, ...>>]                                *)
 (***************************************************************************)
 FamDig == <<"0", "1", "2", "3", "4", "5", "6", "7", "8", "9">>
 RECURSIVE FamNum(_)
@@ -413,14 +418,17 @@ CycShapes == <<
     [id |-> "two",   names |-> <<"main", "b">>, imports |-> <<"b", "main">>],
     [id |-> "three", names |-> <<"main", "b", "c">>, imports |-> <<"b", "c", "main">>],
     [id |-> "tail",  names |-> <<"main", "b", "c">>, imports |-> <<"b", "c", "b">>] >>     \* main -> b <-> c
-CycForms == <<"use", "from">>
+\* frommissing: every file imports the name y from the next one and NO file defines it - a cycle for one name that is missing
+CycForms == <<"use", "from", "frommissing">>
 CycErrors == << [id |-> "def", st |-> "y :: :: 1"], [id |-> "string", st |-> "y :: " \o DQ \o "abc"],
                 [id |-> "end", st |-> "end"], [id |-> "paren", st |-> "y :: (1"] >>
 CycWhich == <<"all", "none", "mainonly", "othersonly">>
 CycWhere == <<"before", "after">>
 CycBroken(which, q) == which = "all" \/ (which = "mainonly" /\ q = 1) \/ (which = "othersonly" /\ q > 1)
 CycFileText(shape, form, err, which, where, q) ==
-    LET imp == IF form = "use" THEN "use " \o shape.imports[q] ELSE "from " \o shape.imports[q] \o " use x as z"
+    LET imp == CASE form = "use" -> "use " \o shape.imports[q]
+                 [] form = "from" -> "from " \o shape.imports[q] \o " use x as z"
+                 [] form = "frommissing" -> "from " \o shape.imports[q] \o " use y"
         bad == IF CycBroken(which, q) THEN <<err.st>> ELSE <<>> IN
     FamLines((IF where = "before" THEN bad ELSE <<>>) \o <<imp, "x :: 1">> \o (IF where = "after" THEN bad ELSE <<>>)
              \o (IF q = 1 THEN <<"start :: fn do", "end">> ELSE <<>>))
@@ -431,8 +439,8 @@ CycCase(i) ==
         where == CycWhere[((m \div 2) % 2) + 1]
         which == CycWhich[((m \div 4) % 4) + 1]
         err == CycErrors[((m \div 16) % 4) + 1]
-        form == CycForms[((m \div 64) % 2) + 1]
-        shape == CycShapes[(m \div 128) + 1] IN
+        form == CycForms[((m \div 64) % Len(CycForms)) + 1]
+        shape == CycShapes[(m \div (64 * Len(CycForms))) + 1] IN
     [id |-> "cyc:" \o shape.id \o ":" \o form \o ":" \o err.id \o ":" \o which \o ":" \o where \o (IF std THEN ":std" ELSE ":nostd"),
      nostd |-> ~std,
      files |-> [q \in 1..Len(shape.names) |-> FamFile(shape.names[q] \o ".sy", CycFileText(shape, form, err, which, where, q))]]
@@ -578,18 +586,231 @@ EntryCase(i) ==
          [id |-> "entry:" \o variant \o ":fnvoid:fnvoid:" \o topo \o ":std", nostd |-> FALSE,
           files |-> EntryFiles(variant, "fnvoid", "fnvoid", topo)]
 
+\* ---- lit: arithmetic over LITERALS towards the numeric limits -------------------------------------------
+\* Every literal is small enough to be a token; the VALUE of the expression reaches and crosses +-2^63 (ints) or the
+\* largest double (floats).  Anything the compiler computes at compile time from such an expression (folding, constant
+\* evaluation, sizes) must not take the compiler down: the run is a complete behaviour like any other.
+\* TLC integers are 32 bit: the literals are strings and are never evaluated here.
+LitI6 == <<"0", "1", "3037000500", "4294967296", "4611686018427387904", "9223372036854775807">>   \* 0, 1, ~sqrt(2^63), 2^32, 2^62, 2^63-1
+LitF4 == <<"0.0", "1.5", "1e308", "1e309">>                                                    \* 1e309 does not fit a double
+LitI3 == <<"1", "4294967296", "9223372036854775807">>
+\* literals the 64-bit token cannot hold: 2^63, 2^64, 10^26-1, 2^128
+LitLex == <<"9223372036854775808", "18446744073709551616", "99999999999999999999999999", "340282366920938463463374607431768211456">>
+LitOps == << [id |-> "add", t |-> "+"], [id |-> "sub", t |-> "-"], [id |-> "mul", t |-> "*"], [id |-> "div", t |-> "/"] >>
+LitCmps == << [id |-> "lt", t |-> "<"], [id |-> "eq", t |-> "=="] >>
+\* an expression: id, text, type ("int" | "float" | "bool"; int / int is a float)
+LitExpr(id, t, ty) == [id |-> id, t |-> t, ty |-> ty]
+LitBin(a, op, b, ty) == LitExpr("bin:" \o a \o "_" \o op.id \o "_" \o b, a \o " " \o op.t \o " " \o b, ty)
+
+LitBinIntN == 6 * 6 * 4
+LitBinInt(m) == LET op == LitOps[(m % 4) + 1] IN
+    LitBin(LitI6[(m \div 24) + 1], op, LitI6[((m \div 4) % 6) + 1], IF op.id = "div" THEN "float" ELSE "int")
+LitBinFloatN == 4 * 4 * 4
+LitBinFloat(m) == LitBin(LitF4[(m \div 16) + 1], LitOps[(m % 4) + 1], LitF4[((m \div 4) % 4) + 1], "float")
+LitCmpN == 3 * 3 * 2
+LitCmp(m) == LitBin(LitI3[(m \div 6) + 1], LitCmps[(m % 2) + 1], LitI3[((m \div 2) % 3) + 1], "bool")
+\* negations: of a literal, of a negation, next to and around the other operators; -a - b reaches -2^63 and crosses it
+LitNegUnaryForms == <<"neg", "negneg", "negparen">>
+LitNegUnaryN == 3 * 3
+LitNegUnary(m) == LET f == LitNegUnaryForms[(m \div 3) + 1]
+                      a == LitI3[(m % 3) + 1] IN
+    LitExpr(f \o ":" \o a, CASE f = "neg" -> "-" \o a [] f = "negneg" -> "- -" \o a [] f = "negparen" -> "-(-" \o a \o ")", "int")
+LitNegBinaryForms == <<"nsub", "nmul", "muln", "nmuln", "nadd", "nnsub", "divnone", "mulnone">>
+LitNegBinaryN == 8 * 3 * 3
+LitNegBinary(m) == LET f == LitNegBinaryForms[(m \div 9) + 1]
+                       a == LitI3[((m \div 3) % 3) + 1]
+                       b == LitI3[(m % 3) + 1] IN
+    LitExpr(f \o ":" \o a \o "_" \o b,
+            CASE f = "nsub" -> "-" \o a \o " - " \o b
+              [] f = "nmul" -> "-" \o a \o " * " \o b
+              [] f = "muln" -> a \o " * -" \o b
+              [] f = "nmuln" -> "-" \o a \o " * -" \o b
+              [] f = "nadd" -> "-(" \o a \o " + " \o b \o ")"
+              [] f = "nnsub" -> "-(-" \o a \o " - " \o b \o ")"
+              [] f = "divnone" -> "(-" \o a \o " - " \o b \o ") / -1"
+              [] f = "mulnone" -> "(-" \o a \o " - " \o b \o ") * -1",
+            IF f = "divnone" THEN "float" ELSE "int")
+\* chains: term q is cyc[q mod Len(cyc)], all joined by one operator, flat (left associative) or nested to the right
+LitChains == <<
+    [id |-> "tens", cyc |-> <<"10">>, op |-> "*", ty |-> "int"],                  \* 10^19 > 2^63
+    [id |-> "hours", cyc |-> <<"60", "24">>, op |-> "*", ty |-> "int"],
+    [id |-> "units", cyc |-> <<"1000000", "24", "60", "60", "1000", "1000", "1000">>, op |-> "*", ty |-> "int"],   \* ns in 10^6 days: 7 small literals
+    [id |-> "two32", cyc |-> <<"4294967296">>, op |-> "*", ty |-> "int"],
+    [id |-> "sqrt", cyc |-> <<"3037000500">>, op |-> "*", ty |-> "int"],          \* 3037000500^2 = 2^63 + 3.4e9
+    [id |-> "twos", cyc |-> <<"2">>, op |-> "*", ty |-> "int"],                   \* stays inside: the control
+    [id |-> "maxsum", cyc |-> <<"9223372036854775807">>, op |-> "+", ty |-> "int"],
+    [id |-> "halfsum", cyc |-> <<"4611686018427387904">>, op |-> "+", ty |-> "int"],   \* 2^62 + 2^62 = 2^63
+    [id |-> "maxone", cyc |-> <<"9223372036854775807", "1">>, op |-> "+", ty |-> "int"],
+    [id |-> "halfdiff", cyc |-> <<"0", "4611686018427387904">>, op |-> "-", ty |-> "int"],
+    [id |-> "f154", cyc |-> <<"1e154">>, op |-> "*", ty |-> "float"],             \* 1e154^3 = inf
+    [id |-> "f308", cyc |-> <<"1e308", "10.0">>, op |-> "*", ty |-> "float"] >>
+LitLens == <<2, 3, 4, 5, 6, 7, 8, 12, 19, 20, 21, 32>>
+LitTerm(cyc, q) == cyc[((q - 1) % Len(cyc)) + 1]
+RECURSIVE LitChainL(_, _, _, _)
+LitChainL(cyc, op, q, n) == LitTerm(cyc, q) \o (IF q = n THEN "" ELSE " " \o op \o " " \o LitChainL(cyc, op, q + 1, n))
+RECURSIVE LitChainR(_, _, _, _)
+LitChainR(cyc, op, q, n) == IF q = n THEN LitTerm(cyc, q) ELSE LitTerm(cyc, q) \o " " \o op \o " (" \o LitChainR(cyc, op, q + 1, n) \o ")"
+LitChainN == Len(LitChains) * Len(LitLens) * 2
+LitChain(m) == LET c == LitChains[(m \div (2 * Len(LitLens))) + 1]
+                   n == LitLens[((m \div 2) % Len(LitLens)) + 1]
+                   right == (m % 2) = 1 IN
+    LitExpr("chain:" \o c.id \o ":n" \o FamNum(n) \o (IF right THEN ":right" ELSE ":left"),
+            IF right THEN LitChainR(c.cyc, c.op, 1, n) ELSE LitChainL(c.cyc, c.op, 1, n), c.ty)
+\* a literal beyond the token: alone, negated, in a sum
+LitLexForms == <<"alone", "neg", "plus">>
+LitLexN == Len(LitLex) * 3
+LitLexE(m) == LET l == LitLex[(m \div 3) + 1]
+                  f == LitLexForms[(m % 3) + 1] IN
+    LitExpr("lex:" \o f \o ":" \o l, CASE f = "alone" -> l [] f = "neg" -> "-" \o l [] f = "plus" -> l \o " + 1", "int")
+
+LitNE == LitBinIntN + LitBinFloatN + LitCmpN + LitNegUnaryN + LitNegBinaryN + LitChainN + LitLexN
+LitExprAt(e) ==       \* 0-based
+    LET o1 == LitBinIntN
+        o2 == o1 + LitBinFloatN
+        o3 == o2 + LitCmpN
+        o4 == o3 + LitNegUnaryN
+        o5 == o4 + LitNegBinaryN
+        o6 == o5 + LitChainN IN
+    IF e < o1 THEN LitBinInt(e) ELSE IF e < o2 THEN LitBinFloat(e - o1) ELSE IF e < o3 THEN LitCmp(e - o2)
+    ELSE IF e < o4 THEN LitNegUnary(e - o3) ELSE IF e < o5 THEN LitNegBinary(e - o4)
+    ELSE IF e < o6 THEN LitChain(e - o5) ELSE LitLexE(e - o6)
+
+\* where the expression stands: initialiser of a constant / of a global / of a local / of an annotated local, returned value,
+\* argument, element of a list / of a tuple, field of a (generic) blob literal, operand of +=, of a condition, value of a closure
+LitPositions == <<"const", "gvar", "local", "annot", "ret", "arg", "list", "tuple", "blob", "compound", "cond", "closure">>
+LitZero(ty) == CASE ty = "int" -> "0" [] ty = "float" -> "0.0" [] ty = "bool" -> "true"
+LitIdFn(ty) == CASE ty = "int" -> "idi" [] ty = "float" -> "idf" [] ty = "bool" -> "idb"
+LitPrelude == FamLines(<<"Bg :: blob(*T) { f: *T }", "idi :: fn a: int -> int do ret a end",
+                         "idf :: fn a: float -> float do ret a end", "idb :: fn a: bool -> bool do ret a end">>)
+\* <<top-level lines, lines in start>>
+LitParts(pos, t, ty) ==
+    LET z == LitZero(ty) IN
+    CASE pos = "const"    -> << <<"x :: " \o t>>, <<"w := x">> >>
+      [] pos = "gvar"     -> << <<"x := " \o t>>, <<"w := x">> >>
+      [] pos = "local"    -> << <<>>, <<"x := " \o t>> >>
+      [] pos = "annot"    -> << <<>>, <<"x: " \o ty \o " = " \o t>> >>
+      [] pos = "ret"      -> << <<"f :: fn -> " \o ty \o " do", "ret " \o t, "end">>, <<"w := f()">> >>
+      [] pos = "arg"      -> << <<>>, <<"w := " \o LitIdFn(ty) \o "(" \o t \o ")">> >>
+      [] pos = "list"     -> << <<>>, <<"w := [" \o t \o ", " \o z \o "]">> >>
+      [] pos = "tuple"    -> << <<>>, <<"w := (" \o t \o ", " \o z \o ")">> >>
+      [] pos = "blob"     -> << <<>>, <<"w := Bg { f: " \o t \o " }">> >>
+      [] pos = "compound" -> << <<>>, <<IF ty = "bool" THEN "q = " \o t ELSE "q += " \o t>> >>
+      [] pos = "cond"     -> << <<>>, <<"if (" \o t \o ") == " \o z \o " do", "end">> >>
+      [] pos = "closure"  -> << <<>>, <<"k := fn ->", t, "end", "w := k()">> >>
+      [] pos = "tindex"   -> << <<>>, <<"w := (1, 2)[" \o t \o "]">> >>          \* (a tuple index is a literal, never an expression)
+LitFrame(pos, x) ==
+    LET parts == LitParts(pos, x.t, x.ty) IN
+    LitPrelude \o FamLines(parts[1] \o <<"start :: fn do", "q := " \o LitZero(x.ty)>> \o parts[2] \o <<"end">>)
+\* trees (a o1 b) o2 (c o3 d) over 2^32 and 2^63-1, every operator triple; at three positions
+LitT2 == <<"4294967296", "9223372036854775807">>
+LitOps3 == <<LitOps[1], LitOps[2], LitOps[3]>>
+LitTreeN == 16 * 27
+LitTree(m) == LET a == LitT2[((m \div 8) % 2) + 1]  b == LitT2[((m \div 4) % 2) + 1]  c == LitT2[((m \div 2) % 2) + 1]  d == LitT2[(m % 2) + 1]
+                  o1 == LitOps3[((m \div 144) % 3) + 1]  o2 == LitOps3[((m \div 48) % 3) + 1]  o3 == LitOps3[((m \div 16) % 3) + 1] IN
+    LitExpr("tree:" \o a \o "_" \o o1.id \o "_" \o b \o "_" \o o2.id \o "_" \o c \o "_" \o o3.id \o "_" \o d,
+            "(" \o a \o " " \o o1.t \o " " \o b \o ") " \o o2.t \o " (" \o c \o " " \o o3.t \o " " \o d \o ")", "int")
+LitTreePositions == <<"const", "local", "arg">>
+LitIndexLits == LitI6 \o LitLex
+LitGridN == LitNE * Len(LitPositions)
+LitTreeGridN == LitTreeN * Len(LitTreePositions)
+LitSize == LitGridN + LitTreeGridN + Len(LitIndexLits)
+LitPick(i) ==      \* <<expression, position>> of 1-based i
+    LET m == i - 1 IN
+    IF m < LitGridN THEN <<LitExprAt(m \div Len(LitPositions)), LitPositions[(m % Len(LitPositions)) + 1]>>
+    ELSE IF m < LitGridN + LitTreeGridN
+         THEN <<LitTree((m - LitGridN) \div Len(LitTreePositions)), LitTreePositions[((m - LitGridN) % Len(LitTreePositions)) + 1]>>
+    ELSE LET l == LitIndexLits[m - LitGridN - LitTreeGridN + 1] IN <<LitExpr("index:" \o l, l, "int"), "tindex">>
+LitCase(i) == LET xp == LitPick(i) IN
+    [id |-> "lit:" \o xp[1].id \o ":" \o xp[2], nostd |-> TRUE, files |-> FamMain(LitFrame(xp[2], xp[1]))]
+
+\* ---- hist: HISTORIES - two or three compilations one after the other in ONE thread of one process ------------------
+\* A compilation is a function of its input: whatever was compiled before in the same thread, every run of the history is
+\* a complete behaviour and ends with the verdict it has when the program is compiled alone (HistoryFree below).
+\* Programs differ in what can be carried over: the number of files (file ids), with / without the standard library (the
+\* preamble and the library files get the ids after the user files), valid or with an error of each phase, and with the
+\* errors that are LOCATED in the preamble: a definition, an import alias or a namespace named like something the
+\* preamble imports (max, print, Maybe, map, list), in the main file or in the last file of the project.
+HistLayouts == << [id |-> "one", n |-> 1, fan |-> FALSE, last |-> FALSE],
+                  [id |-> "three-last", n |-> 3, fan |-> FALSE, last |-> TRUE],        \* main -> m01 -> m02
+                  [id |-> "ten-main", n |-> 10, fan |-> TRUE, last |-> FALSE],         \* main uses m01 .. m09
+                  [id |-> "ten-last", n |-> 10, fan |-> TRUE, last |-> TRUE],
+                  [id |-> "twelve-last", n |-> 12, fan |-> FALSE, last |-> TRUE] >>    \* main -> m01 -> ... -> m11
+HistContents == << [id |-> "ok", st |-> <<>>],
+                   [id |-> "syntax", st |-> <<"y :: :: 1">>],
+                   [id |-> "type", st |-> <<"y :: 1 + " \o StrLit>>],
+                   [id |-> "unknown", st |-> <<"y :: nope">>],
+                   [id |-> "collfn", st |-> <<"max :: fn a: int, b: int -> int do ret a end">>],
+                   [id |-> "collconst", st |-> <<"print :: 1">>],
+                   [id |-> "colltype", st |-> <<"Maybe :: blob { f: int }">>],
+                   [id |-> "collalias", st |-> <<"from main use x as map">>],
+                   [id |-> "collns", st |-> <<"use main as list">>] >>
+HistNoStdLayouts == <<1, 4, 5>>        \* without std: one, ten-last, twelve-last x ok, syntax, type
+HistNoStdContents == 3
+HistMod(q) == "m" \o FamNum2(q)
+RECURSIVE HistUses(_, _)
+HistUses(q, n) == IF q > n THEN <<>> ELSE <<"use " \o HistMod(q)>> \o HistUses(q + 1, n)
+HistFileLines(lay, q) ==
+    IF lay.fan THEN (IF q = 0 THEN HistUses(1, lay.n - 1) \o <<"x :: m01.x + 1">> ELSE <<"x :: 1">>)
+    ELSE IF q < lay.n - 1 THEN <<"use " \o HistMod(q + 1), "x :: " \o HistMod(q + 1) \o ".x + 1">> ELSE <<"x :: 1">>
+HistFile(lay, con, q) ==
+    FamFile(IF q = 0 THEN "main.sy" ELSE HistMod(q) \o ".sy",
+            FamLines(HistFileLines(lay, q) \o (IF q = (IF lay.last THEN lay.n - 1 ELSE 0) THEN con.st ELSE <<>>)
+                     \o (IF q = 0 THEN <<"start :: fn do", "w := x", "end">> ELSE <<>>)))
+\* expect: the verdict class the language gives the program (used by the vacuity guard only; the check compares with the run alone)
+HistProgId(lay, con, std) == lay.id \o "." \o con.id \o (IF std THEN ".std" ELSE ".nostd")
+HistProg(lay, con, std) ==
+    [id |-> HistProgId(lay, con, std), nostd |-> ~std,
+     expect |-> IF con.id = "ok" THEN "accept" ELSE "reject",
+     files |-> [q \in 1..lay.n |-> HistFile(lay, con, q - 1)]]
+HistStdN == Len(HistLayouts) * Len(HistContents)
+HistNP == HistStdN + Len(HistNoStdLayouts) * HistNoStdContents
+HistProgAt(p) ==      \* 0-based
+    IF p < HistStdN THEN HistProg(HistLayouts[(p \div Len(HistContents)) + 1], HistContents[(p % Len(HistContents)) + 1], TRUE)
+    ELSE HistProg(HistLayouts[HistNoStdLayouts[((p - HistStdN) \div HistNoStdContents) + 1]], HistContents[((p - HistStdN) % HistNoStdContents) + 1], FALSE)
+HistProgIdAt(p) ==    \* (the id alone, without building the files)
+    IF p < HistStdN THEN HistProgId(HistLayouts[(p \div Len(HistContents)) + 1], HistContents[(p % Len(HistContents)) + 1], TRUE)
+    ELSE HistProgId(HistLayouts[HistNoStdLayouts[((p - HistStdN) \div HistNoStdContents) + 1]], HistContents[((p - HistStdN) % HistNoStdContents) + 1], FALSE)
+\* triples over eight programs: small and large, valid and not, located in the preamble and not, with and without std
+HistTriple == <<0, 4, 26, 27, 38, 45, 49, 51>>
+\* pairs: what is carried over depends on the size, the library and the fate of the EARLIER program - every layout x
+\* (valid, syntax error, type error, located in the preamble) with std, and every program without std - what it does
+\* to the LATER program depends on everything: all 54 programs
+HistFirstContents == <<0, 1, 2, 4>>
+HistFirstStdN == Len(HistLayouts) * Len(HistFirstContents)
+HistFirstN == HistFirstStdN + (HistNP - HistStdN)
+HistFirstAt(f) ==     \* 0-based: the index of the program
+    IF f < HistFirstStdN THEN (f \div Len(HistFirstContents)) * Len(HistContents) + HistFirstContents[(f % Len(HistFirstContents)) + 1]
+    ELSE HistStdN + (f - HistFirstStdN)
+HistPairsN == HistFirstN * HistNP
+HistTriplesN == Len(HistTriple) * Len(HistTriple) * Len(HistTriple)
+HistSize == HistPairsN + HistTriplesN
+HistSteps(i) == LET m == i - 1 IN
+    IF m < HistPairsN THEN <<HistProgAt(HistFirstAt(m \div HistNP)), HistProgAt(m % HistNP)>>
+    ELSE LET t == m - HistPairsN
+             k == Len(HistTriple) IN
+         <<HistProgAt(HistTriple[(t \div (k * k)) + 1]), HistProgAt(HistTriple[((t \div k) % k) + 1]), HistProgAt(HistTriple[(t % k) + 1])>>
+RECURSIVE HistIdFrom(_, _)
+HistIdFrom(steps, q) == steps[q].id \o (IF q = Len(steps) THEN "" ELSE ">" \o HistIdFrom(steps, q + 1))
+HistCase(i) == LET steps == HistSteps(i) IN [id |-> "hist:" \o HistIdFrom(steps, 1), steps |-> steps]
+
 \* ---- the families by name -------------------------------------------------------------------------
-Families == <<"nest", "nestraw", "nestsolo", "place", "cyc", "selfty", "text", "entry">>
+Families == <<"nest", "nestraw", "nestsolo", "place", "cyc", "selfty", "text", "entry", "lit", "hist">>
+HistFamilies == {"hist"}            \* families whose cases are histories [id, steps] instead of one program [id, files, nostd]
 FamSize(f) == CASE f = "nest" -> NestSize [] f = "nestraw" -> RawSize [] f = "nestsolo" -> SoloSize
                 [] f = "place" -> PlaceSize [] f = "cyc" -> CycSize [] f = "selfty" -> SelfSize
-                [] f = "text" -> TextSize [] f = "entry" -> EntrySize
+                [] f = "text" -> TextSize [] f = "entry" -> EntrySize [] f = "lit" -> LitSize [] f = "hist" -> HistSize
 \* what the recorder writes as the input of a case: every file under a header line, main file first
 RECURSIVE FamTextFrom(_, _)
 FamTextFrom(files, q) == IF q > Len(files) THEN "" ELSE "## " \o files[q].name \o NL \o files[q].text \o FamTextFrom(files, q + 1)
 FamText(c) == FamTextFrom(c.files, 1)
+\* ... of a history: the programs one after the other, each under a line that says whether it is compiled with std
+RECURSIVE HistTextFrom(_, _)
+HistTextFrom(steps, q) == IF q > Len(steps) THEN ""
+                          ELSE "#### " \o (IF steps[q].nostd THEN "nostd" ELSE "std") \o NL \o FamText(steps[q]) \o HistTextFrom(steps, q + 1)
+HistText(c) == HistTextFrom(c.steps, 1)
 FamCase(f, i) == CASE f = "nest" -> NestCase(i) [] f = "nestraw" -> RawCase(i) [] f = "nestsolo" -> SoloCase(i)
                    [] f = "place" -> PlaceCase(i) [] f = "cyc" -> CycCase(i) [] f = "selfty" -> SelfCase(i)
-                   [] f = "text" -> TextCase(i) [] f = "entry" -> EntryCase(i)
+                   [] f = "text" -> TextCase(i) [] f = "entry" -> EntryCase(i) [] f = "lit" -> LitCase(i) [] f = "hist" -> HistCase(i)
 
 ---------------------------------------------------------------------------
 Init == /\ phase = "idle" /\ input = "" /\ stage = "none"
@@ -635,6 +856,18 @@ Finish ==
        \/ phase = "failed" /\ Len(rendered) = errs
     /\ phase' = "finished"
     /\ UNCHANGED <<input, stage, errs, bytes, rendered>>
+
+\* Histories.  The protocol above is ONE compilation.  A caller may compile again once a run is finished; the next run
+\* starts from the blank state: nothing of the previous run is visible to it.  (Not part of Next: the model of one run is
+\* unchanged; Trace_Pipeline takes this step between the runs of a recorded history.)
+Again ==
+    /\ phase = "finished"
+    /\ phase' = "idle" /\ input' = "" /\ stage' = "none" /\ errs' = 0 /\ bytes' = 0 /\ rendered' = <<>>
+
+\* the verdict of a run as the caller sees it when the call returns: accepted or rejected, by which half, with how many errors
+Verdict == [r |-> IF phase = "compiled" THEN "ok" ELSE "err", st |-> stage, n |-> errs]
+\* a compilation is a function of its input: in whatever history the run stands, its verdict is the one of the run alone
+HistoryFree(alone) == phase \in {"compiled", "failed"} => Verdict = alone
 
 Next == \/ \E inp \in Inputs : Start(inp)
         \/ \E n \in 1..MaxErrs : ParseErr(n)
